@@ -699,9 +699,9 @@ theorem compact_perm {kv : Kv} {p : Name → Bool} {outs : List Name} (hv : vali
 
 theorem compact_split (kv : Kv) (p : Name → Bool) (outs : List Name) (hv : validCompact kv p outs) :
     block kv (.compact p outs)
-      = (outs.flatMap (fun o => [Op.tmpCreate o o, Op.tmpSync o]) ++ outs.map Op.link)
+      = (outs.flatMap (fun o => [Op.tmpCreate o o, Op.tmpSync o]) ++ outs.map Op.link ++ outs.map Op.tmpUnlink)
         ++ [Op.maniAppend ⟨outs, kv.files.filter p⟩, Op.maniSync]
-        ++ ((kv.files.filter p).map Op.sstTrash ++ outs.map Op.tmpUnlink) := by
+        ++ (kv.files.filter p).map Op.sstTrash := by
   simp only [block, if_pos hv]
 
 theorem compact_block {fs : Fs} {kv : Kv} (h : Inv fs kv) (p : Name → Bool) (outs : List Name)
@@ -712,8 +712,9 @@ theorem compact_block {fs : Fs} {kv : Kv} (h : Inv fs kv) (p : Name → Bool) (o
         ∧ lA.Perm (List.range kv.next))
     ∧ Inv (run fs (block kv (.compact p outs))) (after kv (.compact p outs)) := by
   let tx : Tx := ⟨outs, kv.files.filter p⟩
-  let pre := outs.flatMap (fun o => [Op.tmpCreate o o, Op.tmpSync o]) ++ outs.map Op.link
-  let post := (kv.files.filter p).map Op.sstTrash ++ outs.map Op.tmpUnlink
+  let pre0 := outs.flatMap (fun o => [Op.tmpCreate o o, Op.tmpSync o]) ++ outs.map Op.link
+  let pre := pre0 ++ outs.map Op.tmpUnlink
+  let post := (kv.files.filter p).map Op.sstTrash
   have hperm := compact_perm hv h.all
   have houtsNot : ∀ o ∈ outs, o ∉ kv.files := hv.2
   -- the effect of `pre`
@@ -721,15 +722,19 @@ theorem compact_block {fs : Fs} {kv : Kv} (h : Inv fs kv) (p : Name → Bool) (o
   obtain ⟨l1, l2, l3, l4, l5⟩ := link_phase outs
     (run fs (outs.flatMap (fun o => [Op.tmpCreate o o, Op.tmpSync o]))) []
     (fun o ho => ctmp o (by simpa using ho)) (by intro g hg; cases hg)
-  have hrunpre : run fs pre = run (run fs (outs.flatMap (fun o => [Op.tmpCreate o o, Op.tmpSync o])))
+  have hrunpre0 : run fs pre0 = run (run fs (outs.flatMap (fun o => [Op.tmpCreate o o, Op.tmpSync o])))
       (outs.map Op.link) := run_append _ _ _
+  -- the scratch copies are unlinked before the manifest is written (they are invisible to recovery)
+  obtain ⟨u1, u2, u3, u4⟩ := post_phase [] (outs.map Op.tmpUnlink) (run fs pre0)
+    (by intro op hop; simp only [List.mem_map] at hop; obtain ⟨o, _, rfl⟩ := hop; trivial)
+  have hrunpre : run fs pre = run (run fs pre0) (outs.map Op.tmpUnlink) := run_append _ _ _
   have hlogs1 : (run fs pre).logs = [(kv.cur, ⟨kv.content, kv.content⟩)] := by
-    rw [hrunpre, l1, c2, h.logs]
-  have hmd1 : (run fs pre).maniDurable = fs.maniDurable := by rw [hrunpre, l2, c3]
-  have hmp1 : (run fs pre).maniPending = [] := by rw [hrunpre, l3, c4, h.mp]
+    rw [hrunpre, u1, hrunpre0, l1, c2, h.logs]
+  have hmd1 : (run fs pre).maniDurable = fs.maniDurable := by rw [hrunpre, u2, hrunpre0, l2, c3]
+  have hmp1 : (run fs pre).maniPending = [] := by rw [hrunpre, u3, hrunpre0, l3, c4, h.mp]
   have hwhole : ∀ nm ∈ applyTx kv.files tx, find (run fs pre).sst nm = some ⟨nm, nm⟩ := by
     intro nm hnm
-    rw [hrunpre]
+    rw [hrunpre, u4 nm (by simp), hrunpre0]
     simp only [applyTx, List.mem_append, List.mem_filter, tx] at hnm
     rcases hnm with ⟨hf, _⟩ | ho
     · rw [l5 nm (fun ho => houtsNot nm ho hf), c1]; exact h.sst nm hf
@@ -746,21 +751,21 @@ theorem compact_block {fs : Fs} {kv : Kv} (h : Inv fs kv) (p : Name → Bool) (o
     · exact Or.inr (notin_files hperm hc)
   have hpostFrame : ∀ op ∈ post, FrameOp (applyTx kv.files tx) op := by
     intro op hop
-    simp only [post, List.mem_append, List.mem_map] at hop
-    rcases hop with ⟨x, hx, rfl⟩ | ⟨o, _, rfl⟩
-    · intro hin; exact hnotIns x hin hx
-    · trivial
+    simp only [post, List.mem_map] at hop
+    obtain ⟨x, hx, rfl⟩ := hop
+    intro hin; exact hnotIns x hin hx
   constructor
   · intro n
     rw [compact_split kv p outs hv]
     have key := tx_block h pre post tx ((applyTx kv.files tx).flatten ++ kv.content)
       (by
         intro op hop
-        simp only [pre, List.mem_append, List.mem_flatMap, List.mem_map] at hop
-        rcases hop with ⟨o, _, ho⟩ | ⟨o, ho, rfl⟩
+        simp only [pre, pre0, List.mem_append, List.mem_flatMap, List.mem_map] at hop
+        rcases hop with (⟨o, _, ho⟩ | ⟨o, ho, rfl⟩) | ⟨o, _, rfl⟩
         · simp only [List.mem_cons, List.not_mem_nil, or_false] at ho
           rcases ho with rfl | rfl <;> trivial
-        · exact houtsNot o ho)
+        · exact houtsNot o ho
+        · trivial)
       hwhole
       (by rw [hlogs1]; intro l hl; simp only [List.mem_singleton] at hl; subst hl; rfl)
       (by rw [hlogs1]; simp only [List.map_cons, List.map_nil]; rw [logPart_single hcontent])
@@ -794,10 +799,9 @@ theorem compact_block {fs : Fs} {kv : Kv} (h : Inv fs kv) (p : Name → Bool) (o
       (step (step (run fs pre) (Op.maniAppend tx)) Op.maniSync)
       (by
         intro op hop
-        simp only [post, List.mem_append, List.mem_map] at hop
-        rcases hop with ⟨x, hx, rfl⟩ | ⟨o, _, rfl⟩
-        · exact hx
-        · trivial)
+        simp only [post, List.mem_map] at hop
+        obtain ⟨x, hx, rfl⟩ := hop
+        exact hx)
     refine ⟨?_, ?_, ?_, ?_, hperm⟩
     · intro c hc
       rw [q4 c (hnotIns c hc)]
@@ -844,7 +848,7 @@ theorem quiet_compact (kv : Kv) (p : Name → Bool) (outs : List Name) :
   split at hop
   · simp only [List.mem_append, List.mem_flatMap, List.mem_map, List.mem_cons, List.not_mem_nil,
       or_false] at hop
-    rcases hop with ((⟨o, _, rfl | rfl⟩ | ⟨o, _, rfl⟩) | rfl | rfl) | ⟨o, _, rfl⟩ | ⟨o, _, rfl⟩ <;> trivial
+    rcases hop with (((⟨o, _, rfl | rfl⟩ | ⟨o, _, rfl⟩) | ⟨o, _, rfl⟩) | rfl | rfl) | ⟨o, _, rfl⟩ <;> trivial
   · cases hop
 
 theorem quiet_reopen (kv : Kv) : ∀ op ∈ block kv .reopen, Quiet op := by
